@@ -150,7 +150,7 @@ func runOne(lg *logger, of *os.File, in input) {
 	lg.line("IMPORTED %d %s %s ## %s", idx, ires.class, dash(ires.site), ires.detail)
 
 	lg.line("STAGE %d emit", idx)
-	rec, eres := emitRecord(idx, in, o, ires.class)
+	rec, eres := emitRecord(idx, in, o, ires.class, ires.full)
 	if eres.class == clsPanic && pres.class != clsPanic {
 		pres = eres
 	}
